@@ -16,15 +16,18 @@ VALUES = [
     ("int", "0"), ("int", "1"), ("int", "(-1)"), ("int", "2"), ("int", "7"), ("int", "10^30"),
     ("frac", "(1/2)"), ("frac", "(-7/3)"),
     ("float", "0.5"), ("float", "2.0"), ("float", "1000000000000000.5"), ("float", "1.5e-300"),
-    ("lazy", "3!"), ("lazy", "C(5,2)"), ("lazy", "(0*3!)"),
+    ("lazy", "3!"), ("lazy", "C(5,2)"), ("lazy", "(0*3!)"), ("lazy", "(5!/7)"), ("lazy", "(3!/4!)"),
     ("qty", "(4 m)"), ("qty", "(0 m)"), ("qty", "(90 deg)"), ("qty", "(2 kg m|s^2)"), ("qty", "(25 degC)"), ("qty", "(3 s)"), ("qty", "((1/3) s)"),
     ("arr", "{}"), ("arr", "{1,2,3}"), ("arr", "{1 m, 2 m}"), ("arr", "{{1},{2}}"), ("arr", "{\"a\"}"), ("arr", "{1, 2 m}"),
     ("intv", "[1,2]"), ("intv", "[-1,1]"), ("intv", "[0,0]"),
     ("inst", "#2024-01-31#"), ("inst", "#9999-12-31T23:59:59#"), ("inst", "#0001-01-01#"),
+    ("inst", "#2024-01-31T00:00:00+00:00#"), ("inst", "#2024-02-29T12:00:00-05:00#"),
     ("str", "\"abc\""), ("str", "\"\""),
     ("rv", "Binomial(3,1/2)"), ("rv", "Poisson(2)"), ("rv", "Geometric(1)"), ("rv", "Bernoulli(1/3)"), ("rv", "UniformInt(1,3)"),
     ("rv", "Exponential(1)"), ("rv", "Uniform(1,1)"), ("rv", "Gaussian(0,1)"),
     ("event", "(Bernoulli(1/3) <= 0)"), ("event", "(0 < Uniform(0,1) < 1)"),
+    # spellings that the constructors must refuse (then the value is a diagnosed error wherever it is used)
+    ("rv", "Binomial(5/2,1/2)"), ("rv", "Poisson(2.5)"), ("event", "(Binomial(7/2,0.5) <= 3)"),
     ("plot", "vline(1)"), ("plot", "options(title: \"t\")"),
 ]
 INFIX = {"+", "-", "*", "/", "%", "^", "<", "<=", "==", "!=", ">", ">=", "±", "in", "="}
